@@ -303,6 +303,45 @@ MemCases(u) ==
   { MemCaseXadd(t) : t \in SampleM({x \in MemIdxXadd(u) : x[3] # x[4]}) }
 
 (***************************************************************************)
+(* Family "frame": the frame rule - an instruction changes its destination *)
+(* and nothing else.  All ten registers hold distinct known values (dst    *)
+(* and src the operands under test), one instruction runs, then EVERY      *)
+(* register is stored into the packet, whose bytes the harness compares.   *)
+(* rB holds the packet pointer (it is neither dst nor src).  Instructions: *)
+(* every ALU opcode, byte swaps, packet loads (they write r0).             *)
+(***************************************************************************)
+FrameVal(r) == W64(16 * r + 1, 16 * r + 2, 16 * r + 3, 16 * r + 4, 16 * r + 5, 16 * r + 6, 16 * r + 7, 128 + r)
+FrameLen == 96
+FrameProg(ins, d, s, rB, A, Bv) ==
+  LET regs == [r \in 0..9 |-> IF r = d THEN A ELSE IF r = s THEN Bv ELSE FrameVal(r)]
+      load(r) == IF r = rB THEN <<>> ELSE LddwSlots(r, regs[r])
+      save(r) == IF r = rB THEN <<>> ELSE << StxI(8, rB, r, 8 * r) >>
+  IN Flat( (IF rB # 1 THEN << Mov64R(rB, 1) >> ELSE <<>>)
+           \o load(0) \o load(1) \o load(2) \o load(3) \o load(4) \o load(5) \o load(6) \o load(7) \o load(8) \o load(9)
+           \o << ins >>
+           \o save(0) \o save(1) \o save(2) \o save(3) \o save(4) \o save(5) \o save(6) \o save(7) \o save(8) \o save(9)
+           \o << Mov64I(0, 0), ExitI >> )
+FrameBase(d, s) == CHOOSE r \in {6, 9, 1, 7} : r # d /\ r # s
+FramePairs == { <<0, 1>>, <<1, 0>>, <<3, 2>>, <<2, 3>>, <<0, 3>>, <<3, 0>>, <<4, 5>>, <<5, 4>>, <<7, 8>>, <<6, 2>>, <<9, 0>>, <<3, 3>>, <<0, 0>> }
+FrameVals == { <<16, 15>>, <<14, 1>>, <<18, 7>>, <<11, 13>> }      \* incl. a zero divisor and shift counts
+FrameOps == AluOpcodes \cup {LE, BE} \cup {o \in 0..255 : IsLdAbs(o) \/ IsLdInd(o)}
+FrameImm(o, k) == IF IsEndian(o) THEN <<16, 32, 64>>[(k % 3) + 1]
+                  ELSE IF IsLdAbs(o) THEN 8 * (k % 4)
+                  ELSE IF IsLdInd(o) THEN 4
+                  ELSE I32[(k % NI) + 1]
+FrameIdx(u) == { <<"fr", o, p[1], p[2], v[1], v[2], k>> : o \in FrameOps, p \in FramePairs, v \in FrameVals, k \in {2, 11} }
+FrameCaseOf(t) ==
+  LET o == t[2]
+      d == t[3]
+      s == t[4]
+      \* packet loads through a register: a small in-bounds index instead of the value pair
+      Bv == IF IsLdInd(o) THEN FromNat(8 * (t[7] % 5)) ELSE V64[t[6]]
+      ins == I(o, IF IsLdAbs(o) \/ IsLdInd(o) THEN 0 ELSE d, s, 0, FrameImm(o, t[7]))
+  IN [WithPkt([BaseCase EXCEPT !.vm = "raw"], FrameLen) EXCEPT
+        !.id = t, !.fam = "frame", !.prog = FrameProg(ins, d, s, FrameBase(d, s), V64[t[5]], Bv)]
+FrameCases(u) == { FrameCaseOf(t) : t \in Sample(FrameIdx(u)) }
+
+(***************************************************************************)
 (* Family "bounds" (C02, C11): every access kind and width at every        *)
 (* position within 9 bytes of either end of every region, plus null and    *)
 (* wrap-around addresses, in several region layouts.                       *)
